@@ -82,6 +82,8 @@ EXTRA_HEADERS = [
     [["X-Version-Id", "00000000-0000-0000-0000-000000000000"]], [["X-Parent-Version-Id", "00000000-0000-0000-0000-000000000001"]],
     [["X-Snapshot-Request", "urgency=high"]],
 ]
+# in process only (a socket client frames the body itself): a declared length that has nothing to do with the body
+EXTRA_HEADERS_INPROC = [[["Content-Length", "18446744073709551615"]], [["Content-Length", "9223372036854775808"]]]
 
 
 def header_jobs(rng, cases, run0, backends=("inmemory", "sqlite"), prefix="xh", per_job=150, driver="http"):
@@ -96,6 +98,9 @@ def header_jobs(rng, cases, run0, backends=("inmemory", "sqlite"), prefix="xh", 
             seen.add(k)
             sel.append(c)
     xcases = [dict(c, xh=xh) for xh in EXTRA_HEADERS for c in sel]
+    if driver == "http":
+        # a request that contradicts itself may be served or refused, but never crashes anything (class "either")
+        xcases += [dict(c, xh=xh, cls=("either" if c["cls"] == "yes" else c["cls"])) for xh in EXTRA_HEADERS_INPROC for c in sel if c["route"] in ("av", "as")]
     return grammar_jobs(rng, xcases, run0, backends, per_job=per_job, prefix=prefix), len(xcases)
 
 
